@@ -257,6 +257,6 @@ PARTS = [
     Part("entu", eval_entu, {"quick": 12000, "thorough": 500000}, strategy=strat_entu, min_nontrivial={"quick": 2000, "thorough": 50000}),
     Part("lmtd", eval_lmtd, {"quick": 3000, "thorough": 100000}, strategy=strat_lmtd, min_nontrivial={"quick": 500, "thorough": 10000}),
 ]
-MIN_SHARE = {"entu": {"c=0": 0.08, "c=1": 0.08, "form=text": 0.3, "form=member": 0.3}}
+MIN_SHARE = {"entu": {"c=0": 0.08, "c=1": 0.08, "form=text": 0.25, "form=member": 0.25}}
 
 FUZZ = {"entu": None}  # parts also driven by the coverage-guided supplement (thorough tier)
